@@ -26,13 +26,13 @@ def lays(t: TensorV) -> list:
     return list(t.lay) if t.lay is not None else [None] * len(t.shape)
 
 
-def mk(shape: Any, dtype: str = "float", lay: Any = None) -> TensorV:
+def mk(shape: Any, dtype: str = "float", lay: Any = None, val: Any = None) -> TensorV:
     shape = tuple(shape)
     if lay is not None:
         lay = tuple(lay)
         if len(lay) != len(shape) or (lay and all(l is None for l in lay)):
             lay = None
-    return TensorV(shape, dtype, lay)
+    return TensorV(shape, dtype, lay, val)
 
 
 def mkfresh(shape: Any, dtype: str = "float") -> TensorV:
@@ -311,6 +311,7 @@ def index_shape(interp: Any, t: TensorV, iv: V, st: State, node: ast.AST | None)
     adv_shapes: list[Shape] = []
     adv_pos: list[int] = []
     tags: list[tuple[str, int]] = []
+    adv_idx: list[tuple[TensorV, Any]] = []
     ax = 0
     for x in items:
         if isinstance(x, NoneV):
@@ -344,6 +345,7 @@ def index_shape(interp: Any, t: TensorV, iv: V, st: State, node: ast.AST | None)
             adv_pos.append(len(out))
             out.append("adv")
             out_l.append("adv")
+            adv_idx.append((x, src_l[ax]))
         elif isinstance(x, TupleV) and x.kind in ("list", "tuple"):
             adv_shapes.append((Dim.const(len(x.items)),))
             adv_pos.append(len(out))
@@ -355,6 +357,15 @@ def index_shape(interp: Any, t: TensorV, iv: V, st: State, node: ast.AST | None)
     if adv_shapes:
         b = broadcast_shapes(adv_shapes, st, node, "advanced indexing")
         bl: list[Any] = [() if is_one(d, st) else None for d in b]
+        ident_rename: tuple[str, Any] | None = None
+        if len(adv_idx) == 1 and len(adv_shapes) == 1 and adv_idx[0][0].lay is not None:
+            # gather by one index tensor: the new axes are laid out like the index tensor; if the
+            # gathered axis belongs to an identity matrix (eye), the *other* axis of the identity now
+            # enumerates the values of the index tensor
+            itn, src_axis_l = adv_idx[0]
+            bl = list(itn.lay)
+            if itn.val is not None and src_axis_l is not None and len(src_axis_l) == 1 and src_axis_l[0][0].startswith("δ#"):
+                ident_rename = (src_axis_l[0][0], tuple(itn.val))
         contiguous = adv_pos == list(range(adv_pos[0], adv_pos[0] + len(adv_pos)))
         if contiguous:
             k = adv_pos[0]
@@ -365,6 +376,9 @@ def index_shape(interp: Any, t: TensorV, iv: V, st: State, node: ast.AST | None)
             resl = bl + [d for d in out_l if d != "adv"]
     else:
         res, resl = list(out), list(out_l)
+    if adv_shapes and ident_rename is not None:
+        lab0, newl = ident_rename
+        resl = [newl if (l is not None and len(l) == 1 and l[0][0] == lab0) else l for l in resl]
     for lab, i in tags:
         resl = [L.tag(l, lab, i) if l is not None else None for l in resl]
     return tuple(res), resl
@@ -685,6 +699,9 @@ def tensor_op(interp: Any, op: str, args: list[V], kwargs: dict[str, V], st: Sta
         if any(d is None for d in ds) or len(args) > 2 or not ds:
             return unk("arange")
         n = ds[0] if len(ds) == 1 else ds[1] - ds[0]  # type: ignore[operator]
+        if len(ds) == 1 and n is not None and not st.norm(n).is_const():
+            at = L.fresh_atom("ι", st.norm(n))
+            return TensorV((n,), "int", ((at,),), (at,))
         return TensorV((n,), "int")  # type: ignore[arg-type]
     if op == "tensor" or op == "as_tensor":
         def shp_of(v: V) -> Shape | None:
@@ -706,6 +723,9 @@ def tensor_op(interp: Any, op: str, args: list[V], kwargs: dict[str, V], st: Sta
         return TensorV(s, "any") if s is not None else unk("torch.tensor of unknown data")
     if op == "eye":
         d = getd(args[0], st) if args else None
+        if d is not None and not st.norm(d).is_const():
+            at = L.fresh_atom("δ", st.norm(d))
+            return TensorV((d, d), "float", ((at,), (at,)))
         return TensorV((d, d)) if d is not None else unk("eye")
     if op == "einsum":
         if args and isinstance(args[0], TensorV):
@@ -851,7 +871,7 @@ def tensor_op(interp: Any, op: str, args: list[V], kwargs: dict[str, V], st: Sta
         if sorted(nidx) != list(range(rank)):
             raise ShapeError(f"permute: {idx} is not a permutation", node)
         ll = lays(t)
-        return mk(tuple(t.shape[i] for i in nidx), t.dtype, [ll[i] for i in nidx])
+        return mk(tuple(t.shape[i] for i in nidx), t.dtype, [ll[i] for i in nidx], t.val)
     if op in ("transpose", "swapaxes", "swapdims"):
         a, b = geti(kw("dim0", 0), st), geti(kw("dim1", 1), st)
         if a is None or b is None:
@@ -889,7 +909,7 @@ def tensor_op(interp: Any, op: str, args: list[V], kwargs: dict[str, V], st: Sta
         ll = lays(t)
         seg = ll[a : b + 1]
         merged = None if any(x is None for x in seg) else tuple(at for x in seg for at in x)
-        return mk(t.shape[:a] + (prod(t.shape[a : b + 1]),) + t.shape[b + 1 :], t.dtype, ll[:a] + [merged] + ll[b + 1 :])
+        return mk(t.shape[:a] + (prod(t.shape[a : b + 1]),) + t.shape[b + 1 :], t.dtype, ll[:a] + [merged] + ll[b + 1 :], t.val)
     if op == "unflatten":
         i = geti(kw("dim", 0), st)
         sizes = seq_items(kw("sizes", 1))
@@ -911,7 +931,7 @@ def tensor_op(interp: Any, op: str, args: list[V], kwargs: dict[str, V], st: Sta
         shp = view_shape(t, sizes, st, node, op, interp)
         if shp is None:
             return unk(f"{op} with unknown sizes")
-        return mk(shp, t.dtype, L.regroup(lays(t), list(shp), st.norm))
+        return mk(shp, t.dtype, L.regroup(lays(t), list(shp), st.norm), t.val)
     if op in ("expand", "broadcast_to"):
         sizes = rest if not (len(rest) == 1 and seq_items(rest[0]) is not None) else seq_items(rest[0])
         if "size" in kwargs:
@@ -1315,7 +1335,9 @@ def model_op(interp: Any, name: str, bound: V | None, args: list[V], kwargs: dic
         if meth == "from_input" and len(args) == 1:
             shp = _shape_of_node(interp, args[0], st, fr)
             if isinstance(shp, TupleV):
-                yield new_param(st, "from_input", TupleV(shp.items), Dim.const(1)), st
+                pv = new_param(st, "from_input", TupleV(shp.items), Dim.const(1))
+                st.heap[pv.pid]["node"] = args[0]
+                yield pv, st
             else:
                 yield interp.unk("Parameter.from_input of unknown shape"), st
             return
@@ -1455,7 +1477,14 @@ def lib_op(interp: Any, name: str, args: list[V], kwargs: dict[str, V], st: Stat
             return
     if name == "numpy.eye" and args:
         d = getd(args[0], st)
-        yield (TensorV((d, d)) if d is not None else interp.unk("np.eye")), st
+        if d is not None and not st.norm(d).is_const():
+            at = L.fresh_atom("δ", st.norm(d))
+            yield TensorV((d, d), "float", ((at,), (at,))), st
+        else:
+            yield (TensorV((d, d)) if d is not None else interp.unk("np.eye")), st
+        return
+    if name == "numpy.arange" and len(args) == 1:
+        yield tensor_op(interp, "arange", list(args), {}, st, fr, node), st
         return
     if name == "numpy.transpose" and args and isinstance(args[0], TensorV):
         ax = kwargs.get("axes", args[1] if len(args) > 1 else None)
